@@ -121,6 +121,14 @@ def run(ctx):
             for f, s in (("%d %B %Y", "%d %s %d" % (dday, name, y)),):
                 cases.append({"s": s, "langs": [rec["name"]], "settings": {"RELATIVE_BASE": base, "TIMEZONE": "UTC"}, "fmts": [f], "today": today,
                               "expect": expect_str(D(y, m, dday)), "stratum": "localized-names"})
+            # literal brackets around the fields, two-digit year and a day that could be a year: every literal character of the string must
+            # survive the translation (keep_formatting), or strptime fails and a fallback reads the digits in the locale's own order
+            if " " not in name and R.random() < (0.5 if tier == "quick" else 1.0):
+                y2 = R.randint(1, 28)
+                f, s = R.choice([("%d (%B) %y", "%02d (%s) %02d" % (dday, name, y2)), ("[%d] %B %y", "[%02d] %s %02d" % (dday, name, y2)),
+                                 ("%d {%B} %y", "%02d {%s} %02d" % (dday, name, y2)), ("%y (%B) %d", "%02d (%s) %02d" % (y2, name, dday))])
+                cases.append({"s": s, "langs": [rec["name"]], "settings": {"RELATIVE_BASE": base, "TIMEZONE": "UTC"}, "fmts": [f], "today": today,
+                              "expect": expect_str(D(2000 + y2, m, dday)), "stratum": "localized-names/bracket-literals"})
             # the same with a clock time and a fraction that starts with zeros (the string goes through the locale's translation before the
             # format is tried: every digit of every field must survive it)
             if " " not in name and R.random() < (0.5 if tier == "quick" else 1.0):
